@@ -353,7 +353,7 @@ func recursionThroughFiles(c *engine.Ctx, fails *int) {
 	declRe := regexp.MustCompile(`(?m)^(type \w+ |func \(j \*\w+\) \w+\()`)
 	n := 0
 	for _, withReq := range []bool{true, false} {
-		for ai, arg := range []string{"tree.json", "./tree.json", "tree"} {
+		for ai, arg := range []string{"tree.json", "./tree.json", "tree", "<abs>/tree.json"} {
 			for fi, fwd := range []string{"branch.json", "./branch.json", "branch"} {
 				for bi, back := range []string{"tree.json", "./tree.json", "tree"} {
 					node := func(id, ref string) M {
@@ -370,7 +370,7 @@ func recursionThroughFiles(c *engine.Ctx, fails *int) {
 					for name, data := range files {
 						_ = os.WriteFile(filepath.Join(wd, name), []byte(data), 0o644)
 					}
-					args := []string{"-p", "forest", "--resolve-extension", ".json", "--schema-root-type", "urn:tree=Tree", "--schema-root-type", "urn:branch=Branch", arg}
+					args := []string{"-p", "forest", "--resolve-extension", ".json", "--schema-root-type", "urn:tree=Tree", "--schema-root-type", "urn:branch=Branch", strings.Replace(arg, "<abs>", wd, 1)}
 					res := runCLI(bin, wd, "", args...)
 					c.Programs++
 					dup := ""
